@@ -29,8 +29,9 @@ Definition obs_eqb (a b : c07_obs) : bool :=
   str_eqb (o_nr1 a) (o_nr1 b) && str_eqb (o_nr2 a) (o_nr2 b).
 
 (* what the harness does for c_unrooted: URL.from_parts(scheme, host, path_parts[1:], query_params,
-   fragment, port, username, password) when the parsed path is ('', s, ...) with s non-empty *)
+   fragment, port, username, password) when there is a host and the parsed path is ('', s, ...) with s non-empty *)
 Definition unroot (b : url) : url :=
+  if is_nil (u_host b) then b else       (* only under a host: without one the path would become rootless *)
   match u_path b with
   | [] :: (ch :: s) :: rest =>
       from_parts (u_scheme b) (u_host b) ((ch :: s) :: rest) (u_query b) (u_frag b) (u_port b)
@@ -59,11 +60,15 @@ Definition c07_model (c : c07_case) : option c07_obs :=
   | _, _ => None
   end.
 
-(* domain of the property: absolute base with an authority; reference without
+(* domain of the property: absolute base with an authority (an empty one, as in
+   "file:///a/b", only together with a non-empty path); reference without
    scheme and authority, or with both *)
 Definition base_in_domain (base : str) : bool :=
   let u := parse base in
-  match scheme u, authority u with Some (_ :: _), Some (_ :: _) => true | _, _ => false end.
+  match scheme u, authority u with
+  | Some (_ :: _), Some a => nonempty a || nonempty (path u)
+  | _, _ => false
+  end.
 
 Definition ref_in_domain (ref : str) : bool :=
   let u := parse ref in
